@@ -550,7 +550,7 @@ func (run *propRun) writeEvidence(id, tier string, seed int, start time.Time, to
 	assumptions = append(assumptions,
 		"error message text is dropped: an error is NoErr or E(tag) where tag is the sentinel reached through %w",
 		"integers are mathematical (Go int is 64-bit machine arithmetic)",
-		"slices are value sequences; nil and empty slices are not distinguished; capacity/backing-array identity is not modelled",
+		"slices are value sequences ([]string distinguishes nil from empty; for other slice types a comparison with nil is an unknown boolean); capacity/backing-array identity is not modelled",
 		"trees have value semantics in the functional obligations; in-place mutation is covered by the ownership/frame obligations (backend own) only where those are generated",
 		"strings are sequences of code points (valid UTF-8 assumed)",
 		"partial correctness: recursive calls are used through their contracts; termination obligations are reported under C08")
